@@ -535,6 +535,14 @@ def check(prop, tier, seed, replay=None):
     log('[%s] harness built in %.1fs' % (prop, bt))
 
     if replay:
+        # a replay file of an in-situ projection names its component in the reset line: validate it as that part
+        try:
+            rc0 = json.loads(open(replay).readline()).get('comp', '')
+        except Exception:
+            rc0 = ''
+        for part in (P.get('parts') or [P]):
+            if part['comp'] == rc0:
+                comp, C, profile = rc0, COMPONENTS[rc0], part.get('profile', 'none')
         outp = os.path.join(workdir, 'replay_out.ndjson')
         harness([C['harness'], 'replay', '--in', replay, '--out', outp])
         v = validate(comp, profile, outp, workdir, par=1, tag='rp')
